@@ -35,6 +35,8 @@ LAYOUTS = {
     "tapchord": [M(["A"], ["C"], D), M(["B"], ["D"], S(["C"], 4, 2))],
     # boundary values of the repeat timing: no delay, no interval, a long delay
     "zerorep": [M(["B"], ["D"], S(["C"], 0, 1)), M(["A"], ["A"], S(["C", "E"], 1, 0)), M(["S"], ["S"], S(["C"], 1000000, 1000000))],
+    # two triggers whose Special repeats name the SAME chord with different timings: the second firing must start its own delay
+    "twodelay": [M(["B"], ["B"], S(["C"], 4, 2)), M(["D"], ["D"], S(["C"], 40, 7)), M(["A"], ["A"], S(["C"], 4, 2))],
 }
 # a burst of nine different keys going down at once (then e.g. the tablet switch turns on: one release batch of nine events)
 NINE = ["P:1", "P:2", "P:3", "P:4", "P:5", "P:6", "P:7", "P:8", "P:9"]
@@ -60,10 +62,10 @@ GEN = {
                           ("chord", ["P:LEFTCTRL", "P:K", "P:A"], 3, 1, 1, 0), ("basic", ["P:A", "P:S"], 2, 1, 0, 0, 20), ("basic", ["P:A", "R:A"], 1, 0, 1, 1, 70),
                           ("norep", ["P:LEFTSHIFT", "P:A"], 2, 0, 0, 0, 33)],
     ("C11", "quick"): [("tapchord", ["P:A", "R:A", "P:B"], 3, 0, 2, 0), ("rollover", ["P:A", "P:S", "R:A"], 3, 0, 2, 0), ("basic", ["P:S", "R:S"], 3, 1, 2, 0), ("chord", ["P:LEFTCTRL", "P:K", "R:K"], 3, 0, 2, 0), ("empty-chord", ["P:S", "P:A", "P:B"], 3, 0, 2, 0),
-                       ("norep", ["P:LEFTSHIFT", "P:S", "P:D"], 3, 0, 2, 0)],
+                       ("norep", ["P:LEFTSHIFT", "P:S", "P:D"], 3, 0, 2, 0), ("twodelay", ["P:B", "P:D", "P:A"], 2, 0, 3, 0)],
     ("C11", "thorough"): [("rollover", ["P:A", "P:S", "R:A", "R:S"], 4, 0, 3, 0), ("basic", ["P:S", "R:S", "P:A"], 3, 1, 3, 0), ("chord", ["P:LEFTCTRL", "P:K", "R:K", "R:LEFTCTRL"], 4, 0, 2, 0), ("chord", ["P:LEFTCTRL", "P:K"], 2, 2, 2, 0),
                           ("empty-chord", ["P:S", "P:A", "P:B", "R:B"], 4, 0, 2, 0), ("norep", ["P:LEFTSHIFT", "P:S", "P:D", "R:LEFTSHIFT"], 4, 0, 2, 0),
-                          ("basic", ["P:S", "P:S", "R:S"], 3, 0, 4, 1)],
+                          ("basic", ["P:S", "P:S", "R:S"], 3, 0, 4, 1), ("twodelay", ["P:B", "P:D", "P:A", "R:B"], 3, 0, 3, 0)],
     ("C12", "quick"): [("shiftchord", ["P:LEFTSHIFT", "P:A", "R:LEFTSHIFT"], 3, 1, 0, 0), ("passthru", ["R:1"], 1, 1, 0, 0, NINE), ("basic", ["P:A", "R:A"], 2, 2, 0, 0), ("basic", ["P:S"], 1, 2, 2, 0), ("chord", ["P:LEFTCTRL", "P:K"], 2, 1, 1, 0), ("basic", ["P:A", "R:A"], 3, 1, 0, 0)],
     ("C12", "thorough"): [("shiftchord", ["P:LEFTSHIFT", "P:A", "R:LEFTSHIFT", "R:A"], 3, 2, 0, 0), ("passthru", ["R:1", "P:A"], 2, 2, 0, 0, NINE), ("basic", ["P:A", "R:A"], 3, 2, 0, 0), ("basic", ["P:S", "R:S"], 2, 2, 2, 0), ("chord", ["P:LEFTCTRL", "P:K", "R:LEFTCTRL"], 2, 2, 1, 0),
                           ("basic", ["P:A", "R:A"], 2, 3, 0, 0), ("norep", ["P:LEFTSHIFT", "P:A", "R:LEFTSHIFT"], 2, 2, 1, 0)],
@@ -78,6 +80,10 @@ GEN[("C06", "thorough")] = GEN[("C12", "thorough")]
 SEVENTEEN_TAP = SEVENTEEN + ["R:" + k for k in _MANY[:17]]
 GEN[("C01", "quick")] = [("basic", ["P:A", "P:S"], 1, 1, 0, 0, 20), ("basic", ["P:A", "R:A"], 3, 1, 0, 0), ("passthru", ["R:1"], 1, 1, 0, 0, NINE), ("passthru", ["R:1"], 1, 0, 0, 0, SEVENTEEN_TAP)]
 GEN[("C01", "thorough")] = GEN[("C01", "quick")] + [("basic", ["P:A", "R:A"], 1, 0, 1, 1, 70), ("norep", ["P:LEFTSHIFT", "P:A"], 2, 0, 0, 0, 33), ("basic", ["P:A", "R:A"], 3, 2, 0, 0)]
+# C09 at the loop (see ALIAS): several events in one wake-up, the last of them ignored by the mapper (duplicate press, release of a key that is not held);
+# a second Special firing that names the chord already repeating, with its own timings
+GEN[("C09", "quick")] = [("basic", ["P:S", "R:S", "R:A"], 3, 0, 2, 0), ("twodelay", ["P:B", "P:D", "P:A"], 2, 0, 3, 0)]
+GEN[("C09", "thorough")] = [("basic", ["P:S", "R:S", "R:A", "P:A"], 4, 0, 2, 0), ("twodelay", ["P:B", "P:D", "P:A", "R:B"], 3, 0, 3, 0), ("norep", ["P:LEFTSHIFT", "P:S", "P:S", "R:D"], 4, 0, 2, 0)]
 # C14 at the loop (see ALIAS): boundary repeat timings with timer expiries
 # (negative timings are left out: with a negative delay the loop asks for a time-out of 2^64 - 5 ms, i.e. never repeats; not a panic, and outside what C11 quantifies over)
 GEN[("C14", "quick")] = [("zerorep", ["P:B", "P:A", "R:B"], 2, 0, 2, 0)]
@@ -95,10 +101,11 @@ SIM = {
     "C18": [],
     "C01": [],
     "C14": [],
+    "C09": [],
 }
 INVARIANTS = ["NoLostWakeup", "SendsAreMapperOutputs", "QuietInTabletMode", "HeldMatches", "ReleasedInTablet", "ChordsAreTransient", "StopsOnFailure", "EmitSchedule"]
 # registers of LoopTrace that must be non-zero for a run of the property to be non-vacuous
-NEED = {"C10": [4, 8], "C11": [3, 6], "C12": [5, 9, 10], "C20": [7], "C06": [5, 10], "C18": [4, 5], "C01": [4, 8], "C14": [4]}
+NEED = {"C10": [4, 8], "C11": [3, 6], "C12": [5, 9, 10], "C20": [7], "C06": [5, 10], "C18": [4, 5], "C01": [4, 8], "C14": [4], "C09": [3, 6]}
 REGS = ["traces", "drifts", "chords_judged", "step_sends_judged", "releaseall_sends_judged", "timed_polls_judged", "failing_calls_judged",
         "polls_with_unread_events_queued", "key_events_read_in_tablet_mode", "tablet_on_with_keys_held"]
 
@@ -228,7 +235,9 @@ SCENARIOS = {
     "C06": [("tapchord", "P:A R:A On Off P:B to to R:B"), ("tapchord", "P:A R:A On P:Z Off P:B to to"), ("tapchord", "P:B to R:B P:A R:A Off P:B to to")],
     # ... and a pass-through key that a Special mapping lifted is released while the repeat runs; a key an active mapping outputs is pressed
     "C11": [("tapchord", "P:A R:A P:B to to R:B P:A R:A P:B to"), ("basic", "P:Z P:S to R:Z to to"), ("basic", "P:Z P:S to to R:S to R:Z"), ("basic", "P:A P:S to P:B to to"),
-            ("zerorep", "P:B to to to R:B"), ("zerorep", "P:A to to R:A P:B to"), ("zerorep", "P:S to R:S P:B to to")],
+            ("zerorep", "P:B to to to R:B"), ("zerorep", "P:A to to R:A P:B to"), ("zerorep", "P:S to R:S P:B to to"),
+            ("twodelay", "P:B to P:D to to R:D"), ("twodelay", "P:B to to P:A to P:D to")],
+    "C09": [("twodelay", "P:B to P:D to to R:D"), ("twodelay", "P:B to to P:A to P:D to"), ("basic", "P:S to R:A to P:S to R:S")],
     "C12": [("tapchord", "P:A R:A On Off P:B to to R:B")],
     "C14": [("zerorep", "P:B to to to R:B"), ("zerorep", "P:A to to R:A P:B to")],
 }
@@ -422,7 +431,11 @@ def startup_runs(res, exe, wd, tier):
 
 # loop-level clauses that are ALSO what another property says, seen at the loop: C06 ("after the release-all operation used on tablet-mode
 # changes nothing is held ... answers as a newly created mapper ... no memory of ... repeat triggers survives")
-ALIAS = {# C01 at the loop ("whenever no physical key is held, no key is held on the virtual keyboard"), judged each time the loop goes back to waiting
+ALIAS = {# C09 at the loop ("a step asks the event loop to start repeating exactly when ... with exactly that mapping's repeat keys, delay and interval; every other
+         # key press or release that the mapper acts on cancels repeating; events it ignores leave the repeat state unchanged"): what the loop does with the
+         # requests - a chord although the repeat was cancelled, no chord / no timer although one was requested, another chord or timing than the fired mapping's
+         "C09": {"C11-chord-at-wrong-time", "C11-chord-missing", "C11-repeat-without-timer", "C11-repeat-not-as-listed-in-the-layout", "C11-timeout-off-schedule"},
+         # C01 at the loop ("whenever no physical key is held, no key is held on the virtual keyboard"), judged each time the loop goes back to waiting
          "C01": {"C01-keys-held-while-waiting-although-every-key-was-released"},
          # C14 at the loop ("every layout that loading accepts can be ... driven with any sequence of key events without panicking"): the loop
          # that drives the mapper must not panic either, whatever the accepted layout's repeat timings are (zero, negative)
